@@ -455,6 +455,7 @@ class Engine:
                         continue
                     for st2, taken in self.branch(st1b, t):
                         st2.trace.append("L%d:%s[%d]=%s" % (n.lineno, "and" if isand else "or", i, taken))
+                        self.narrow(n.values[i], taken, st2)
                         if taken == isand:
                             yield from go(i + 1, st2)
                         else:
@@ -1815,7 +1816,9 @@ class Engine:
 
     def ex_For(self, s, st):
         k, ls = self.loop_spec(s)
-        for st1, it in self.ev(s.iter, st):
+        enum = isinstance(s.iter, ast.Call) and isinstance(s.iter.func, ast.Name) and s.iter.func.id == "enumerate" \
+            and len(s.iter.args) == 1 and not s.iter.keywords and self.resolve_static(s.iter.func, st) == ("sym", "builtins:enumerate")
+        for st1, it in self.ev(s.iter.args[0] if enum else s.iter, st):
             if isinstance(it, Raised):
                 yield "raise", st1, it.exc
                 continue
@@ -1837,6 +1840,10 @@ class Engine:
                 seqv = it
             else:
                 seqv = ops.as_seq(st1, it)
+            if enum:
+                import copy as _copy
+                seqv = _copy.copy(seqv)
+                seqv._enumerate = True
             yield from self.loop_rule(s, st1, k, ls, ("seq", seqv))
 
     def dict_key_seq(self, st, d: V) -> V:
@@ -2042,6 +2049,8 @@ class Engine:
         rg = getattr(seqv, "_range", None)
         if rg is not None:
             return V(INT, rg[0] + i)
+        if getattr(seqv, "_enumerate", False):
+            return vtuple([V(INT, i), V(seqv.ty.args[0], seqv.t[i])])
         return V(seqv.ty.args[0], seqv.t[i])
 
 
